@@ -94,6 +94,47 @@ instance : Zero CRat := ⟨⟨0, 0⟩⟩
 def conj (a : CRat) : CRat := ⟨a.re, -a.im⟩
 end CRat
 
+/-! ## Gaussian dyadic rationals: the scalar type the driver computes with on floats
+
+Every float is a dyadic rational `m / 2^e`.  `Dy` keeps that form un-normalised (no gcd per
+operation, which is what makes `Rat` slow on dense matrices); `Dy.toRat` is its value, and
+`Lemmas/OpIR.lean` proves that `+`, `-`, `*`, `0` on `Dy` are those of `Rat` under `toRat`
+(`Dy.toRat_add`, `Dy.toRat_sub`, `Dy.toRat_mul`, `Dy.toRat_zero`), likewise for `CDy` and `CRat`. -/
+
+structure Dy where
+  m : Int
+  e : Nat
+  deriving Repr
+
+namespace Dy
+/-- numerator of `a` over the denominator `2^e` (for `e ≥ a.e`). -/
+def align (a : Dy) (e : Nat) : Int := a.m * (((2 : Nat) ^ (e - a.e) : Nat) : Int)
+instance : Add Dy := ⟨fun a b => ⟨a.align (max a.e b.e) + b.align (max a.e b.e), max a.e b.e⟩⟩
+instance : Sub Dy := ⟨fun a b => ⟨a.align (max a.e b.e) - b.align (max a.e b.e), max a.e b.e⟩⟩
+instance : Mul Dy := ⟨fun a b => ⟨a.m * b.m, a.e + b.e⟩⟩
+instance : Zero Dy := ⟨⟨0, 0⟩⟩
+def neg (a : Dy) : Dy := ⟨-a.m, a.e⟩
+def toRat (a : Dy) : Rat := mkRat a.m (2 ^ a.e)
+/-- a rational whose (reduced) denominator is a power of two. -/
+def ofRat? (q : Rat) : Option Dy :=
+  let e := Nat.log2 q.den
+  if 2 ^ e = q.den then some ⟨q.num, e⟩ else none
+end Dy
+
+structure CDy where
+  re : Dy
+  im : Dy
+  deriving Repr
+
+namespace CDy
+instance : Add CDy := ⟨fun a b => ⟨a.re + b.re, a.im + b.im⟩⟩
+instance : Sub CDy := ⟨fun a b => ⟨a.re - b.re, a.im - b.im⟩⟩
+instance : Mul CDy := ⟨fun a b => ⟨a.re * b.re - a.im * b.im, a.re * b.im + a.im * b.re⟩⟩
+instance : Zero CDy := ⟨⟨0, 0⟩⟩
+def conj (a : CDy) : CDy := ⟨a.re, a.im.neg⟩
+def toCRat (a : CDy) : CRat := ⟨a.re.toRat, a.im.toRat⟩
+end CDy
+
 /-! ## A map that is *not* in the IR: input-dependent selection
 
 "Only propagate what this input excites": keep the components that carry more than a fraction `θ`
